@@ -278,11 +278,26 @@ func MemoKeyMismatches(f *Func) []MemoKeyMismatch {
 	isSet := func(e ast.Expr) (types.Object, bool) {
 		o := ObjOf(info, e)
 		if o == nil {
+			// a set held in a struct field (data.ServerTypeNames): keyed by the field
+			if se, ok := Unparen(e).(*ast.SelectorExpr); ok {
+				if v, ok := info.Uses[se.Sel].(*types.Var); ok && v.IsField() {
+					o = v
+				}
+			}
+		}
+		if o == nil {
 			return nil, false
 		}
 		m, ok := o.Type().Underlying().(*types.Map)
 		if !ok {
 			return nil, false
+		}
+		if _, isField := Unparen(e).(*ast.SelectorExpr); isField {
+			// sets held in fields: only those keyed by a name/ID (basic key type); a set of
+			// object identities (pointer keys) legitimately tests one object and inserts another
+			if _, basic := m.Key().Underlying().(*types.Basic); !basic {
+				return nil, false
+			}
 		}
 		switch v := m.Elem().Underlying().(type) {
 		case *types.Struct:
